@@ -35,6 +35,42 @@ def writes_members(f, cls, names):
     return out
 
 
+def uncovered_writes(f, cls, names):
+    """writes to `names` members of cls in f that are not followed/preceded, in the same or an enclosing block, by an
+    invalidation of active_volume (direct assignment or delegation to resetACTNUM/init*)"""
+    write_ids = set()
+    for n in walk_fn(f):
+        if n["k"] == "Mem" and n.get("cls") == cls and n["n"] in names and (n.get("b") or {"k": "This"}).get("k") == "This":
+            if any(kind != "safe" for kind, node, why in cow.classify(f, n, via=n["n"])):
+                write_ids.add(id(n))
+
+    def is_inval(s_):
+        for x in walk(s_):
+            if x["k"] == "Mem" and x["n"] == "active_volume" and x.get("cls") == cls:
+                return True
+            if x["k"] == "MCall" and x.get("cls") == cls and (x.get("m") or "").startswith(("resetACTNUM", "init")):
+                return True
+        return False
+
+    def has_write(s_):
+        return any(id(x) in write_ids for x in walk(s_))
+
+    def unc(block):
+        st = stmt_list(block)
+        if any(is_inval(s_) and s_["k"] not in ("If", "For", "While", "ForRange", "Switch") for s_ in st):
+            return []
+        res = []
+        for s_ in st:
+            if s_["k"] == "If":
+                res += unc(s_["then"]) + (unc(s_["else"]) if s_.get("else") else [])
+            elif s_["k"] in ("For", "While", "ForRange", "Do"):
+                res += unc(s_["body"])
+            elif has_write(s_):
+                res.append(s_)
+        return res
+    return unc(f["body"]) if f.get("body") else []
+
+
 def run(chk):
     fx = chk.facts(UNITS)
     fh = chk.facts([EG], files_re="^/repo/opm/input/eclipse/EclipseState/Grid/(EclipseGrid|GridDims)\\.hpp$", fn_re="^$")
@@ -176,8 +212,10 @@ def run(chk):
             continue
         if wm and wm != set(MAPS) and not f.get("ctor") and not delegates:
             chk.violation(r_maps, key + ":all", "%s writes %s but not %s: the index maps go out of step with ACTNUM" % (f["q"], sorted(wm), sorted(set(MAPS) - wm)), f["file"], f["l"])
-        if (wm or wg) and not inval and not f.get("ctor") and not ctor_only(f["q"]) and not (f["q"] in GEOM_ALLOW and not wm):
-            chk.violation(r_maps, key + ":cache", "%s changes %s without invalidating the cached cell volumes (active_volume)" % (f["q"], sorted(wm | wg)), f["file"], f["l"])
+        if (wm or wg) and not f.get("ctor") and not ctor_only(f["q"]) and not (f["q"] in GEOM_ALLOW and not wm):
+            unc = uncovered_writes(f, CLS, set(MAPS) | set(geom))
+            if unc:
+                chk.violation(r_maps, key + ":cache", "%s changes %s on a path that does not invalidate the cached cell volumes (active_volume): `%s`" % (f["q"], sorted(wm | wg), show(unc[0])[:80]), f["file"], unc[0].get("l"))
 
     # ---- C13.inverse
     r_inv = chk.rule("C13.inverse", "resetACTNUM builds mutually inverse maps: an active cell n gets global->active = running count and active->global = n in the same branch, an inactive one -1, and the count grows by one per active cell", floor=3)
